@@ -579,6 +579,7 @@ theorem tablesUnique_applyUpdate (e : Eng) (u : Update) (h : TablesUnique e) :
         subst hs
         exact h j s0 hj
     · exact h j s hs
+  | other => exact h j s hs
 
 theorem tablesUnique_action (e : Eng) (c : Command) (h : TablesUnique e) :
     TablesUnique (action e c).1 := by
